@@ -39,6 +39,10 @@ def gen_file(rng, tag, local):
 
     if has_prot:
         add_member(rng.choice(["protected", "private"]), "class ProtT { public: int v; };", None)
+        # public names for the non-public type: a signature spelled with them still involves it
+        add_member("public", "typedef ProtT *ProtPtr;", None)
+        add_member("public", "typedef ProtT ProtAlias;", None)
+        add_member("public", "typedef ProtPtr ProtPtr2;", None)
     if hidden:
         # a private nested class with published members, referred to by a published data member of the outer class
         add_member("private", "class Hidden {\n  __published:\n    int peek();\n    int hidden_field;\n  };", None)
@@ -62,10 +66,10 @@ def gen_file(rng, tag, local):
             text = "int %s(%s &&o);" % (name, cname)
             attrs["rvalue"] = True
         elif r < 0.52 and has_prot:
-            text = "int %s(ProtT *p);" % name
+            text = "int %s(%s);" % (name, rng.choice(["ProtT *p", "ProtT *p", "ProtPtr p", "const ProtAlias &p", "ProtAlias *p", "ProtPtr2 p", "int a, ProtPtr p"]))
             attrs["invprot"] = True
         elif r < 0.6 and has_prot:
-            text = "ProtT *%s();" % name
+            text = "%s%s();" % (rng.choice(["ProtT *", "ProtPtr ", "ProtAlias *", "ProtPtr2 "]), name)
             attrs["invprot"] = True
         else:
             text = "int %s(int a, double b = 1.0);" % name
@@ -84,7 +88,7 @@ def gen_file(rng, tag, local):
         any_member_vis.pop()
     rng.shuffle(members)
     # a class needs its protected helper types declared before use
-    members.sort(key=lambda m: 0 if m[1].startswith("class ") else 1)
+    members.sort(key=lambda m: 0 if m[1].startswith("class ") else 1 if m[1].startswith("typedef ProtT") else 2 if m[1].startswith("typedef ") else 3)
     cls_published = rng.random() < 0.25
     body = "class %s {\n" % cname
     for vis_name, text in members:
@@ -157,7 +161,7 @@ def gen_layout(rng):
     files["sub/b.h"] = '#include "beside.h"\n' + files["sub/b.h"]
     # a command (.N) file next to main.h
     cmds = []
-    if rng.random() < 0.6:
+    if rng.random() < 0.7:
         local_methods = [e for e in ents if e.kind == "method" and e.attrs.get("local") and not e.attrs.get("hidden_class")]
         if local_methods and rng.random() < 0.7:
             victim = rng.choice(local_methods)
@@ -170,8 +174,8 @@ def gen_layout(rng):
             cmds.append("ignorefile cwdinc.h")
             for e in by_file["cwdinc.h"]:
                 e.attrs["local"] = False          # `_source != S_local || in_ignorefile(...)` is one guard
-        if rng.random() < 0.3:
-            cls = rng.choice(["MainC", "SubC"])
+        if rng.random() < 0.5:
+            cls = rng.choice(["MainC", "SubC", "SubC"])       # SubC: a type of the *later* header named in the earlier header's command file
             cmds.append("ignoretype " + cls)
             for e in ents:
                 if e.name == cls or e.cls == cls:
